@@ -36,6 +36,11 @@ BUDGET = {
 SAMPLE_KINDS = ['ok_mef', 'ok_mef_wide', 'ok_rfi', 'ok_one', 'ok_400', 'ok_float', 'ok_float2', 'missing', 'missing_isdir', 'missing_notdir', 'missing_case', 'small', 'gf_neg', 'gf_big', 'gf_just_above', 'gf_just_below', 'bad_units', 'beads_failed',
                 'no_curve', 'other_instrument', 'other_instrument_lc', 'other_amp', 'other_volt', 'other_volt0', 'bad_units_sub']
 HEALTHY = ('ok_mef', 'ok_mef_wide', 'ok_rfi', 'ok_one', 'ok_400', 'ok_float', 'ok_float2')
+# further healthy rows whose *files* are unusual; they are paired with every healthy kind (both orders) in the quick
+# tier and with every kind in the thorough tier
+HEALTHY_EXTRA = ('ok_nofl2', 'ok_v31', 'ok_latin', 'ok_novolt')
+SAMPLE_KINDS += list(HEALTHY_EXTRA)
+HEALTHY += HEALTHY_EXTRA
 BEAD_KINDS = ['ok', 'missing', 'missing_isdir', 'missing_case', 'small', 'gf_neg', 'gf_big', 'unequal_mef', 'unequal_mef_mid']
 
 _FIX = {}
@@ -61,6 +66,11 @@ def fixture(seed):
         'cells_volt.fcs': dict(kind='cells', instrument='I1', seed=seed + 5, n=500, datatype='I', volt=[500, 550, 999, 650, 700]),
         'cells_volt0.fcs': dict(kind='cells', instrument='I1', seed=seed + 11, n=500, datatype='I', volt=[500, 550, 0, 650, 700]),
         'cells_wide.fcs': dict(kind='cells', instrument='I1', seed=seed + 12, n=540, datatype='I', extra_first=True),
+        'cells_nofl2.fcs': dict(kind='cells', instrument='I1', seed=seed + 14, n=530, datatype='I', drop_fl=1),   # FL2-H was not recorded
+        'cells_v31.fcs': dict(kind='cells', instrument='I1', seed=seed + 15, n=510, datatype='I', version='FCS3.1'),
+        'cells_latin.fcs': dict(kind='cells', instrument='I1', seed=seed + 16, n=505, datatype='I',
+                                extra_kw=[['OPERATOR', 'Jos\xe9 N\xfa\xf1ez'], ['$SRC', '5 \xb5m beads-free medium']]),     # ISO-8859-1 text
+        'cells_novolt.fcs': dict(kind='cells', instrument='I1', seed=seed + 17, n=515, datatype='I', no_volt=True),
         'cells_lin.fcs': dict(kind='cells', instrument='I1', seed=seed + 6, n=500, datatype='I', amp='lin'),
         'cells_i2.fcs': dict(kind='cells', instrument='I2', seed=seed + 7, n=500, datatype='I'),
         'beads1.fcs': dict(kind='beads', instrument='I1', seed=seed + 8),
@@ -129,6 +139,14 @@ def sample_row(kind, sid):
         r.update(file='cells_volt.fcs')
     elif kind == 'other_volt0':
         r.update(file='cells_volt0.fcs')          # the calibrated channel's detector voltage is 0 (beads: 600)
+    elif kind == 'ok_nofl2':
+        r.update(file='cells_nofl2.fcs', units={'FL1-H': 'RFI'}, beads=None)        # the file lacks a channel the instrument lists
+    elif kind == 'ok_v31':
+        r.update(file='cells_v31.fcs', units={'FL1-H': 'MEF', 'FL2-H': 'a.u.'})      # an FCS3.1 file
+    elif kind == 'ok_latin':
+        r.update(file='cells_latin.fcs', units={'FL2-H': 'RFI'}, beads=None)         # keyword values with ISO-8859-1 characters
+    elif kind == 'ok_novolt':
+        r.update(file='cells_novolt.fcs')                                            # calibrated, the file records no voltages
     elif kind == 'ok_mef_wide':
         r.update(file='cells_wide.fcs', gate_fraction=0.6)   # same instrument and beads, but one more parameter in the file
     return r
@@ -298,6 +316,10 @@ def exhaustive_jobs(tier):
     faulty = [k for k in SAMPLE_KINDS if k not in HEALTHY]
     for ia, a in enumerate(SAMPLE_KINDS):
         for ib, b in enumerate(SAMPLE_KINDS):
+            if tier != 'thorough' and (a in HEALTHY_EXTRA or b in HEALTHY_EXTRA):
+                if a in HEALTHY and b in HEALTHY and a != b:
+                    jobs.append(('samples', [a, b]))
+                continue
             if a in HEALTHY or b in HEALTHY or a == b or tier == 'thorough' or (ia + 2 * ib) % 3 == 0:
                 jobs.append(('samples', [a, b]))
     jobs += [('beads', [])] + [('beads', [k]) for k in BEAD_KINDS] + [('beads', [a, b]) for a in BEAD_KINDS for b in BEAD_KINDS]
